@@ -73,6 +73,7 @@ type FuncSpec struct {
 }
 
 type GhostAt struct {
+	Ord    int // bind at the Ord-th call of Callee on the path (1 = first)
 	Name   string
 	Clause *Clause
 	Callee string
@@ -126,7 +127,7 @@ func NewSpecs() *Specs {
 var labelRe = regexp.MustCompile(`^([A-Za-z_][A-Za-z0-9_\-]*):\s+(.*)$`)
 var typeinvRe = regexp.MustCompile(`^\(\s*(\w+)\s+\*(\w+)\s*\)\s*=\s*(.*)$`)
 var guardRe = regexp.MustCompile(`^(?:(\w+)\.)?(\w+)\s+by\s+(?:(\w+)\.)?(\w+)$`)
-var ghostAtRe = regexp.MustCompile(`^(\w+)\s*=\s*(.*?)\s+after\s+([\w.$]+)$`)
+var ghostAtRe = regexp.MustCompile(`^(\w+)\s*=\s*(.*?)\s+after\s+([\w.$]+(?:#\d+)?)$`)
 var funcHdrRe = regexp.MustCompile(`^func\s+(?:\(\s*(\w+)?\s*(\*?)\s*([\w]+)\s*\)\s*)?([\w$]+)\s*$`)
 
 type rawLine struct {
@@ -298,7 +299,12 @@ func (sp *Specs) LoadSpecFile(path, pkgName string) {
 					continue
 				}
 				if c := mkClause(l, m[2]); c != nil {
-					cur.GhostAt = append(cur.GhostAt, GhostAt{Name: m[1], Clause: c, Callee: m[3]})
+					ga := GhostAt{Name: m[1], Clause: c, Callee: m[3], Ord: 1}
+					if i := strings.Index(ga.Callee, "#"); i >= 0 {
+						fmt.Sscanf(ga.Callee[i+1:], "%d", &ga.Ord)
+						ga.Callee = ga.Callee[:i]
+					}
+					cur.GhostAt = append(cur.GhostAt, ga)
 				}
 			case "decreases":
 				for _, part := range splitTop(rest) {
